@@ -343,7 +343,7 @@ def region_points(entry, path, n, seed, boxes=(1, 10 ** 6), hints=()):
         pts.append(asg)
     return pts
 
-def numeric_check(entry, path, names, n=42, seed=0, hints=()):
+def numeric_check(entry, path, names, n=42, seed=0, hints=(), degrees=None):
     """Evaluate |taylor - generic| in 60-digit arithmetic at points of the region. Returns {name: (asg, lv, rv, tol)} for exceedances, and #points in region."""
     import mpmath as mp
     nodes = entry.nodes
@@ -365,6 +365,6 @@ def numeric_check(entry, path, names, n=42, seed=0, hints=()):
             l, r, cls = ap[nm]
             lv, rv = val[l], val[r]
             if mp.isnan(lv) or mp.isnan(rv): continue
-            tol = float(TOL[cls]) * float(scale)
+            tol = float(TOL[cls]) * float(scale) ** max(1, (degrees or {}).get(nm, 1))   # same scaling as the solver bound: tol * max(1,B)^(degree in the box variables)
             if abs(lv - rv) > tol: found[nm] = (asg, float(lv), float(rv), tol)
     return found, npc
